@@ -19,7 +19,7 @@ claim("C12", "other",
 claim("C19", "proof",
       "Build half of the statement: every documented configuration is generated as its own translation unit (constructs the tree with explicit/automatic block size, executes, rebuilds, exports) "
       "and must type-check with the repository's own compiler flags - quick: a pairwise-covering subset of the 1280-configuration product, thorough: the full product with g++ plus the subset with clang++; "
-      "include-guard macros are unique across src/; thorough: the selector header builds with OpenMP+Specx+StarPU all defined (declaration stubs). "
+      "include-guard macros are unique across src/; the selector header builds with OpenMP+Specx+StarPU all defined (declaration stubs). "
       "The compiler is the decision procedure, so the verdict holds for the configuration, not for a sampled input.",
       "Trusted: g++ 12 / clang++ 14 front ends, the witness generator. Not decided: that the configurations then satisfy C01/C06/C13 (value-level).",
       "generated must-compile witness TUs per configuration + include-guard uniqueness", "DESIGN.md §2 C19")
